@@ -1,7 +1,7 @@
 (** MasterIter: the end-to-end theorems for by-value iterator sources (ConIterOfIter and
     ConIterOfIterX): the runner machine of MachineIter.v with the settings of Settings.v. *)
 From OrxPar Require Import Base Settings SettingsP Spec Pipeline PipelineP Machine MachineP
-  MachineIter MachineIterP Kernels KernelsP Program Master.
+  Termination MachineIter MachineIterP TerminationIter Kernels KernelsP Program Master.
 Set Implicit Arguments.
 
 Section IterRun.
@@ -58,6 +58,62 @@ Theorem imrun_threads srclen ordered stop panics sched :
 Proof.
   pose proof (I_sp (imrunp_IGInv srclen ordered stop panics sched)) as H.
   destruct (isph (imrunp srclen ordered stop panics sched)); lia.
+Qed.
+
+(** the liveness invariant of the ticket / gate protocol, in every reachable state *)
+Theorem imrunp_LInv srclen ordered stop panics sched :
+  LInv ordered (imrunp srclen ordered stop panics sched).
+Proof.
+  assert (H1 : forall n h, m_dospawn r n h = true -> n + 2 <= m_maxt r)
+    by (intros n h; apply m_dospawn_bound; exact r_wf).
+  assert (H2 : forall n h c, m_nextc r n h = Some c -> 0 < c)
+    by (intros n h c; apply m_nextc_pos; exact r_wf).
+  pose proof (m_maxt_pos r_wf) as H3. pose proof (m_c0_pos r_wf) as H4.
+  unfold imrunp. eapply irun_LInv; eauto.
+  - apply iinit_IGInv; auto.
+  - apply iinit_LInv.
+Qed.
+
+(** C10 / C14 over iterator sources: whatever happened so far (tickets taken and not yet served,
+    a reader in the middle of its chunk, early exit, panics), a fair continuation completes the
+    run -- the handle protocol cannot deadlock and waiting is never a livelock *)
+Theorem imrunp_completes srclen ordered stop panics sched :
+  iall_done (imrunp srclen ordered stop panics
+               (sched ++ round_robin (m_maxt r)
+                           (iphi srclen (m_maxt r) (imrunp srclen ordered stop panics sched)))).
+Proof.
+  assert (H1 : forall n h, m_dospawn r n h = true -> n + 2 <= m_maxt r)
+    by (intros n h; apply m_dospawn_bound; exact r_wf).
+  assert (H2 : forall n h c, m_nextc r n h = Some c -> 0 < c)
+    by (intros n h c; apply m_nextc_pos; exact r_wf).
+  pose proof (m_maxt_pos r_wf) as H3.
+  unfold imrunp, MachineIter.irun. rewrite fold_left_app.
+  apply iall_doneb_spec.
+  eapply irr_completes; eauto.
+  - apply imrunp_IGInv.
+  - apply imrunp_LInv.
+Qed.
+
+(** no schedule contains more effective steps than the initial measure: waiting on the handle
+    aside, the run is finite *)
+Theorem imrun_effective_bounded srclen ordered stop panics sched :
+  ieffective srclen (match r_input_len r with Some _ => true | None => false end) ordered stop panics
+             (m_dospawn r) (m_nextc r) (iinit (m_c0 r)) sched
+  <= 9 * m_maxt r + 2 + 5 * srclen.
+Proof.
+  assert (H1 : forall n h, m_dospawn r n h = true -> n + 2 <= m_maxt r)
+    by (intros n h; apply m_dospawn_bound; exact r_wf).
+  assert (H2 : forall n h c, m_nextc r n h = Some c -> 0 < c)
+    by (intros n h c; apply m_nextc_pos; exact r_wf).
+  pose proof (m_maxt_pos r_wf) as H3. pose proof (m_c0_pos r_wf) as H4.
+  pose proof (@ieffective_bounded srclen (match r_input_len r with Some _ => true | None => false end)
+                ordered stop panics (m_dospawn r) (m_nextc r) (m_maxt r) H1 H2 H3
+                (iinit (m_c0 r)) sched) as B.
+  assert (G0 : IGInv srclen stop panics (m_maxt r) (iinit (m_c0 r))) by (apply iinit_IGInv; auto).
+  specialize (B G0).
+  assert (E : iphi srclen (m_maxt r) (iinit (m_c0 r)) = 9 * m_maxt r + 2 + 5 * srclen).
+  { unfold iphi. cbn. lia. }
+  lia.
 Qed.
 
 End IterRun.
